@@ -45,6 +45,9 @@ type trUnit struct {
 	pkg   string   // path below the repository root, e.g. "lib/common/date"
 	mod   string   // Lean module suffix: Knut.Generated.Trans<mod>
 	funcs []string // "StartOf", "Period.Clip" (methods as Type.Method)
+	// agree: functions whose agreement theorems live in Knut.FactsAgree.Trans<agree[f]> instead of Trans<mod> (a package whose
+	// agreement is split over several modules); used for the `trans-reject <Module> <func>` lines that bin/check matches
+	agree map[string]string
 	// mapOrder: functions that range over a map get the iteration order as an explicit list argument
 }
 
